@@ -171,7 +171,7 @@ Lemma fdiv_real : forall e s, num e -> num s -> 0 <= rk e <= 1 -> is_inf s = fal
   (rk (fdiv e s) = y /\ Rabs y < bpow radix2 128) \/ (fdiv e s = pinf /\ bpow radix2 128 <= y).
 Proof.
   intros e s He Hs Pe Fs Ps.
-  assert (G0 := BIG_pos). assert (G1 := BIG_gt).
+  assert (G0 := BIG_pos). assert (G1 := BIG_gt). assert (G2 : 1 < bpow radix2 128) by (apply (bpow_lt radix2 0 128); lia).
   destruct (num_B e He) as (A & -> & HA). destruct (num_B s Hs) as (B & -> & HB).
   assert (FB : is_finite B = true) by (destruct B; easy).
   assert (FA : is_finite A = true).
